@@ -119,6 +119,7 @@ def run(ctx: Ctx):
                    construct=f"{sl.fi.qualname}:{cname_lit}:sibling:{mname}" + (":" + ",".join(sorted(miss)) if miss else ""))
     accumulators(ctx)
     per_row_asserts(ctx)
+    explained_asserts(ctx)
     gate(ctx)
 
 
@@ -165,6 +166,49 @@ def per_row_asserts(ctx: Ctx):
                        construct=f"{fn}:{h.kind}:{text}")
         else:
             ctx.ob("C06.f", f"{cname}.checker:per-row", True, sl.where, f"{n_parts} assert conditions judge rows independently")
+
+
+def explained_asserts(ctx: Ctx):
+    """C06.g: a checker asserts nothing beyond the problem definition: every conjunctive assert
+    literal instantiates a constraint of the env's reference row or an instance-data sanity
+    condition (non-negativity, ordered windows, depot reachable in time) with the right sides and
+    strictness.  A reversed or invented assertion rejects feasible solutions."""
+    from ..envs import leaf_matches, strictness as _strict
+    for cname, (path, family) in T.CHECK_ENVS.items():
+        env = EnvA(ctx.repo, path, cname)
+        sl = env.slot("check_solution_validity")
+        leaves = assert_leaves(sl)
+        row = T.CHECK[cname]
+        bad = []
+        n = 0
+        for l in leaves:
+            if not l.conj or l.sign == 0:
+                continue
+            n += 1
+            if any(leaf_matches(l, lit)[0] for lit in row):
+                continue
+            ok = False
+            c = l.cmp()
+            if c is not None:
+                pos_c, neg_c, _, _ = sided_atoms(c[0])
+                for lit in T.SANITY:
+                    m, _ = leaf_matches(l, lit)
+                    extra = getattr(lit, "extra_small", set())
+                    exact = pos_c == lit.big and lit.small <= neg_c <= (lit.small | extra)
+                    # (strictness of a sanity condition is not judged: a weaker sanity test rejects nothing feasible)
+                    if m and exact and not vg.params_of(l.node) and c[0].const_term() == 0:
+                        ok = True
+                        break
+            if not ok:
+                bad.append(l)
+        if bad:
+            for l in bad[:3]:
+                ctx.ob("C06.g", f"{cname}.checker:unexplained:{show_leaf(l)[:50]}", False, sl.where,
+                       f"the checker asserts `{show_leaf(l)}`, which is neither a constraint of the problem's reference row nor one of the instance sanity conditions "
+                       f"(with these operands on these sides / this strictness): feasible solutions of valid instances are rejected",
+                       construct=f"{sl.fi.qualname}:unexplained-assert:{','.join(sorted(vg.cells_of(l.node)))}")
+        else:
+            ctx.ob("C06.g", f"{cname}.checker:asserts-explained", True, sl.where, f"{n} conjunctive assert literals, all explained by the reference row or the sanity table")
 
 
 CHECK_ACCUM_ENVS = ("CVRPEnv", "SDVRPEnv", "CVRPTWEnv", "MTVRPEnv")
